@@ -31,9 +31,42 @@ def restore_order(fn):
     )
 
 
+def chain_order(F):
+    """restore_from_backup_with_options: the chain is collected child-first along the parent links and must be applied
+    full -> oldest incremental -> ... -> requested backup.  The only ordering step is the reversal of the collected
+    chain; ordering by any other key (timestamps have one-second granularity) does not give the chain order."""
+    f = R + "restore_from_backup_with_options"
+    fc = FnCheck(F, f)
+    if fc.fn is None:
+        return fc.missing()
+    REV = call(r"= core::slice::<impl \[BackupMetadata\]>::reverse\(", name="chain.reverse()")
+    OTHER = call(r"\[BackupMetadata\]>::(sort\w*|select_nth\w*|rotate\w*|swap)\b|Vec::<BackupMetadata>::(sort\w*|dedup\w*|swap_remove|insert)\b|as Iterator>::rev\b|Rev<", name="another re-ordering of the chain (sort/rev/insert)")
+    PUSH = call(r"= Vec::<BackupMetadata>::push\(", name="chain.push(parent)")
+    INCR = Arm(r"^call <BackupType as PartialEq>::eq$", {"0"}, name="requested backup is incremental", nth=0)
+    out = []
+    if fc.count(OTHER) > 0:
+        r = fc.reachable(OTHER)
+        if r.verdict == "holds":
+            r = Result("violated", "the chain collected along the parent links is re-ordered by something other than its reversal (%s): incrementals with equal keys are applied newest-first and older files overwrite newer ones" % r.detail[:200],
+                       queries=r.queries, seconds=r.seconds, sample={"fn": fc.name, "kind": "NEVER", "B": OTHER.name})
+        out.append(r)
+    if fc.count(REV) == 0:
+        if not out:
+            out.append(Result("inconclusive", "no chain.reverse() and no other recognised ordering step in %s" % fc.name))
+        return out
+    out.append(fc.precedes(REV, VERIFY, assume=[INCR]))
+    if fc.count(REV) != 1:
+        out.append(Result("violated", "%d reversal steps in %s: the collected chain must be reversed exactly once" % (fc.count(REV), fc.name), sample={"fn": fc.name, "kind": "COUNT", "B": REV.name}))
+    out.append(fc.never(PUSH, frm=REV))  # the chain is complete when it is reversed
+    out.append(fc.reachable(PUSH))  # (PRECEDES(push, reverse) is not expressible: the parent loop is data-abstract and zero iterations look possible)
+    return out
+
+
 OK_UNIT = stmt(r"^_0 = Result::<\(\), anyhow::Error>::Ok\(", name="return Ok(())")
 REMOVE = call(r"= std::fs::remove_file::", name="fs::remove_file")
 MOS = [
+    MO("O12.3/chain_order", "restore_from_backup_with_options: for an incremental target the chain pushed along the parent links is reversed exactly once before any archive is verified or extracted, and it is not re-ordered by any other key",
+       chain_order, functions=[("backup.rs", "restore_from_backup_with_options")]),
     MO("O12.2/restore_by_id", "restore_from_backup_with_options: whole chain verified < clear (succeeded) < extract; nothing verified after the clear; dry-run extracts nothing",
        restore_order("restore_from_backup_with_options"), functions=[("backup.rs", "restore_from_backup_with_options")]),
     MO("O12.2/restore_pitr", "restore_point_in_time_with_options: same order", restore_order("restore_point_in_time_with_options"), functions=[("backup.rs", "restore_point_in_time_with_options")]),
